@@ -432,6 +432,69 @@ def conditional_receiver(ctx):
             ctx.violation("conditional-receiver:one-class's-default-written-into-the-call", f"{text} emitted {out}: Track.pt declares scale=1.0, Muon.pt declares scale=0.001, python calls the method of the object that is there", {"conditional_receiver": True})
 
 
+def defaults_scope(ctx):
+    """default values of a nested stage lambda's parameters are ALL evaluated where the lambda is written: a name in a later default means
+    the enclosing variable even if an earlier keyword-only parameter (or the item parameter) of the same lambda carries that name"""
+    from typing import Iterable
+
+    from func_adl import EventDataset
+
+    class Jet:
+        def pt(self, unit: int = 1) -> float: ...
+
+    class Ev:
+        def pt(self, unit: int = 1000, frame: str = "lab") -> float: ...
+        def lead(self) -> Jet: ...
+        def jets(self) -> Iterable[Jet]: ...
+
+    class DS(EventDataset):
+        async def execute_result_async(self, a, title=None):
+            return a
+
+    cases = [
+        ("lambda e: e.jets().Select(lambda j, *, e=e.lead(), s=e.pt(): j.pt() / s + e.pt())", ["s=e.pt(1000, 'lab')", "j.pt(1) / s + e.pt(1)"]),
+        ("lambda e: e.jets().Select(lambda e, *, s=e.pt(): e.pt() / s)", ["s=e.pt(1000, 'lab')", "e.pt(1) / s"]),
+        ("lambda e: e.jets().Select(lambda j, *, e=e: j.pt() / e.pt())", ["j.pt(1) / e.pt(1000, 'lab')"]),
+        ("lambda e: e.jets().Where(lambda j, *, a=e.pt(frame='cm'), b=e.lead().pt(): j.pt(unit=2) > a + b).Count()", ["a=e.pt(1000, 'cm')", "b=e.lead().pt(1)", "j.pt(2) > a + b"]),
+    ]
+    # one ast.Lambda OBJECT as the function of two nested operators over different item classes (a query assembled from parts)
+    class Trk:
+        def pt(self, unit: int = 7) -> float: ...
+
+    class JetL:
+        def lead(self, kind: str = "jet-default") -> Trk: ...
+
+    class Mu:
+        def lead(self, kind: str = "mu-default", n: int = 2) -> Trk: ...
+
+    class Ev2:
+        def jets(self) -> Iterable[JetL]: ...
+        def mus(self) -> Iterable[Mu]: ...
+
+    shared = astx.parse_expr("lambda x: x.lead().pt()")
+    outer = astx.parse_expr("lambda e: (e.jets().Select(0), e.mus().Select(0))")
+    outer.body.elts[0].args[0] = shared
+    outer.body.elts[1].args[0] = shared
+    ctx.case("shared-lambda-object-under-two-operators", True)
+    try:
+        out = astx.unparse(DS(Ev2).Select(outer).query_ast.args[1])
+        if "x.lead('jet-default').pt(7)" not in out or "x.lead('mu-default', 2).pt(7)" not in out:
+            ctx.violation("shared-lambda-object:normalised-against-the-wrong-class", f"one lambda object under e.jets().Select(..) and e.mus().Select(..): emitted {out}", {"defaults_scope": True})
+    except Exception as e:
+        ctx.violation(f"defaults-scope:exc:{type(e).__name__}", f"shared lambda object: {type(e).__name__}: {str(e)[:200]}", {"defaults_scope": True})
+    for text, must in cases:
+        ctx.case("defaults-scope:" + text, True)
+        ctx.count("defaults-scope-cases")
+        try:
+            out = astx.unparse(DS(Ev).Select(text).query_ast.args[1])
+        except Exception as e:
+            ctx.violation(f"defaults-scope:exc:{type(e).__name__}", f"{text}: {type(e).__name__}: {str(e)[:200]}", {"defaults_scope": True})
+            continue
+        missing = [m for m in must if m not in out]
+        if missing:
+            ctx.violation("defaults-scope:not-normalised-against-the-enclosing-variable", f"{text} emitted {out}; expected to contain {missing}", {"defaults_scope": True})
+
+
 def shard_main(ctx):
     from func_adl import EventDataset
 
@@ -439,6 +502,8 @@ def shard_main(ctx):
         async def execute_result_async(self, a, title=None):
             return a
 
+    if ctx.shard == 0:
+        defaults_scope(ctx)
     if ctx.shard in (0, 2, 4):
         registry_history(ctx)
     if ctx.shard == 0:
@@ -475,6 +540,9 @@ def replay(ctx, witness):
 
     if witness.get("registry_history"):
         registry_history(ctx)
+        return
+    if witness.get("defaults_scope"):
+        defaults_scope(ctx)
         return
     if witness.get("conditional_receiver"):
         conditional_receiver(ctx)
